@@ -179,7 +179,9 @@ func (p *Policy) AsymVerify(pub *rsa.PublicKey, msg, sig []byte) error {
 		return rsa.VerifyPKCS1v15(pub, crypto.SHA256, d[:], sig)
 	default:
 		d := sha256.Sum256(msg)
-		return rsa.VerifyPSS(pub, crypto.SHA256, d[:], sig, &rsa.PSSOptions{SaltLength: rsa.PSSSaltLengthAuto})
+		// RSA-PSS-SHA2-256 fixes the salt length to the hash length; verifiers of other stacks (.NET's
+		// RSASignaturePadding.Pss, OpenSSL with rsa_pss_saltlen:digest) reject any other length, so this one does too
+		return rsa.VerifyPSS(pub, crypto.SHA256, d[:], sig, &rsa.PSSOptions{SaltLength: rsa.PSSSaltLengthEqualsHash})
 	}
 }
 
